@@ -1,13 +1,35 @@
 --------------------------- MODULE BitStructTiny ---------------------------
 (***************************************************************************)
 (* C06: the object state machine of BitStruct.tla (Assign @=, NbAssign     *)
-(* <<=, Flip, Clone, DeepCopy, from_bits, leaf mutation in place / by      *)
-(* rebinding) explored EXHAUSTIVELY for one tiny shape, read from the JSON *)
-(* file $VERIF_INPUT ({"shape": ...}).  The harness dumps the state graph  *)
-(* and replays every transition on real objects.  cfg (generated):         *)
-(*    Shape <- InputShape    Names = {"x", "y"}                            *)
+(* <<=, Flip, Clone, DeepCopy, from_bits, default construction, leaf       *)
+(* mutation in place / by rebinding) explored EXHAUSTIVELY for one tiny    *)
+(* shape, read from the JSON file $VERIF_INPUT ({"shape": ...}).  The      *)
+(* harness dumps the state graph and replays every transition on real      *)
+(* objects.  cfg (generated):    Names = {"x", "y"}                        *)
+(*                                                                         *)
+(* BitStruct is INSTANTIATED with Shape <- InputShape (a constant-level    *)
+(* definition of this module, evaluated once).  A cfg substitution         *)
+(* `Shape <- InputShape` would make TLC re-read the JSON file at every     *)
+(* reference to Shape and run out of file descriptors on larger graphs.    *)
+(* Do is spelled out here (not B!Do) so that the edges of the dumped graph *)
+(* are labelled  Do(<action record>).                                      *)
 (***************************************************************************)
-EXTENDS BitStruct, Json, IOUtils
+EXTENDS Naturals, Sequences, FiniteSets, TLC, Json, IOUtils
 
 InputShape == JsonDeserialize(IOEnv.VERIF_INPUT).shape
+
+CONSTANT Names
+VARIABLE objs
+
+B == INSTANCE BitStruct WITH Shape <- InputShape
+
+Init  == B!Init
+Do(a) == B!Enabled(InputShape, objs, a) /\ objs' = B!Step(InputShape, objs, a)
+Next  == \E a \in B!Actions : Do(a)
+Spec  == Init /\ [][Next]_objs
+
+TypeOK       == B!TypeOK
+PackedAgrees == B!PackedAgrees
+NoAliasing   == B!NoAliasing
+NbInvisible  == B!NbInvisible
 =============================================================================
